@@ -164,9 +164,11 @@ fn link_trace(run: &mut Run, rng: &mut Rng, case: u64) -> anyhow::Result<()> {
     let rt = paused_rt();
     let res: anyhow::Result<(u64, Vec<Option<(u64, String)>>, Vec<String>)> = rt.block_on(async move {
         let fabric = Fabric::new(seed);
+        // the dialer's own idle timeout is the shorter one in half of the traces (the effective timeout is
+        // the smaller of the two ends' settings)
         let cfg = config_idle_ka(t_idle, None);
         let a = start_node(&fabric, seed, 1, cfg.clone())?;
-        let b = start_node(&fabric, seed, 2, cfg)?;
+        let b = start_node(&fabric, seed, 2, if case % 2 == 0 { cfg } else { config_idle_ka(t_idle + 20_000, None) })?;
         let start = tokio::time::Instant::now();
         let (la, _) = watch(&a.net, start);
         let (lb, _) = watch(&b.net, start);
@@ -509,6 +511,7 @@ pub fn run_c09(run: &mut Run) -> anyhow::Result<()> {
         network_history(run, &mut rng, 10_000 + i)?;
     }
     crate::peers::blocked_handler(run, if q { 1 } else { 4 }, "listing")?;
+    crate::peers::contention_rounds(run, if q { 100 } else { 1000 }, "local")?;
     let p = crate::streams::PANICS.load(std::sync::atomic::Ordering::SeqCst);
     if p > 0 {
         run.oracle_fail(json!({"kind": "panic during view histories", "count": p}));
